@@ -287,13 +287,15 @@ def consumer_serialize(ctx):
     # __properies is a set of attribute names: model as a list of the names recorded by the real __init__
     if isinstance(props_, Ref) and isinstance(ctx.cell(props_), (NSet,)):
         raise Undecided('attribute-name set modelled as node set')
-    a, b = Opaque('uservalue', FreshInt('a')), Opaque('uservalue', FreshInt('b'))
+    # attribute values may be falsy (counter 0, empty container): they are part of the state all the same
+    a, b = FreshInt('counterValue'), ctx.alloc(PList([]))
+    ctx.track('counterValue', a)
     c = ctx.cell(obj)
     ctx.setcell(obj, c.with_field('_ReplX__data', a).with_field('_ReplX__maxsize', b))
     fn, ci = mod.find('SyncObjConsumer._serialize')
     d = I.call_funcdef(fn, mod, 'SyncObjConsumer', obj, [], {}, None, 'SyncObjConsumer._serialize')
     dc = ctx.cell(d)
-    ctx.prove(isinstance(dc, PDict) and set(dc.items) == {'_ReplX__data', '_ReplX__maxsize'} and dc.items['_ReplX__data'] is a and dc.items['_ReplX__maxsize'] is b,
+    ctx.prove(isinstance(dc, PDict) and set(dc.items) == {'_ReplX__data', '_ReplX__maxsize'} and dc.items['_ReplX__data'] is a and dc.items['_ReplX__maxsize'] == b,
               'C15+C09:consumer.serialize-only-user-attributes', info=repr(sorted(dc.items)) if isinstance(dc, PDict) else repr(dc))
     fresh = ctx.alloc(PObj('SyncObjConsumer', {}))
     fn, ci = mod.find('SyncObjConsumer.__init__')
@@ -303,7 +305,7 @@ def consumer_serialize(ctx):
     fn, ci = mod.find('SyncObjConsumer._deserialize')
     I.call_funcdef(fn, mod, 'SyncObjConsumer', fresh, [d], {}, None, 'SyncObjConsumer._deserialize')
     f = ctx.cell(fresh).fields
-    ctx.prove(f.get('_ReplX__data') is a and f.get('_ReplX__maxsize') is b, 'C15+C09:consumer.deserialize-restores-values')
+    ctx.prove(f.get('_ReplX__data') is a and f.get('_ReplX__maxsize') == b, 'C15+C09:consumer.deserialize-restores-values')
     ctx.prove(f.get('_syncObj') is so_marker, 'C15+C09:consumer.deserialize-keeps-binding')
 
 
